@@ -6,7 +6,7 @@
    [step_inner]). *)
 From Coq Require Import ZArith List Bool Lia.
 From Model Require Import Bits Word Instr Sim Load.
-From Proofs Require Import IrqProofs.
+From Proofs Require Import SimAccess SimUser IrqProofs IrqCongruence.
 Import ListNotations.
 Open Scope Z_scope.
 
@@ -104,6 +104,81 @@ Theorem C10_rti_inverse : forall e s v p s1 s2,
     (psr_privileged (s_psr s) = false -> rget (s_regs s3) 6 = rget (s_regs s) 6) /\
     (psr_privileged (s_psr s) = true -> s_saved_sp s3 = s_saved_sp s) /\
     (forall k, 0 <= k -> k <> 6 -> rget (s_regs s3) k = rget (s_regs s2) k) /\
-    s_mem s3 = s_mem s2 /\ s_instrs s3 = s_instrs s2 /\ s_devs s3 = s_devs s2 /\ s_flags s3 = s_flags s2.
+    s_mem s3 = s_mem s2 /\ s_instrs s3 = s_instrs s2 /\ s_devs s3 = s_devs s2 /\ s_flags s3 = s_flags s2 /\
+    regs8 (s_regs s3) /\ s_mcr s3 = s_mcr s2 /\ s_ireg s3 = s_ireg s2 /\ s_alloca s3 = s_alloca s2 /\
+    rget (s_regs s3) 6 = (if psr_privileged (s_psr s) then w_add (w_sub (entry_sp s) (new_init 2)) (new_init 2) else rget (s_regs s) 6) /\
+    s_saved_sp s3 = (if psr_privileged (s_psr s) then s_saved_sp s else w_add (w_sub (entry_sp s) (new_init 2)) (new_init 2)).
 Proof. exact rti_restores. Qed.
 Print Assumptions C10_rti_inverse.
+
+(* Transparency, what is proved.
+   [peq s s']: s' shows the interrupted program exactly what s did — PC, PSR (CC, privilege, priority),
+   all eight registers (so also its stack pointer), the saved SP, every word of user memory,
+   keyboard queue and display buffer, MCR, flags, internal-register map.
+   [HandlerOK s s1 s2] is the explicit contract of a well-behaved handler between the state s1
+   right after the entry and the state s2 in which it executes RTI: back at its entry stack pointer
+   with the two saved words intact, saved SP untouched, still privileged, every register restored,
+   user memory / keyboard / display / MCR / flags / mappings untouched.
+   C10_serviced_once: entry ; handler meeting HandlerOK ; RTI  gives a state program-equal to the
+   interrupted one.  C10_transparent_partial: by induction over the schedule, any number of
+   interrupts serviced one after the other at an instruction boundary (each taken by the gate, each
+   handler meeting HandlerOK — a handler's own run may contain nested serviced interrupts, the
+   contract is about its end state) leaves the machine program-equal to the interrupted state, so
+   the instruction that finally executes is the one the uninterrupted run executes, from the same
+   visible state.
+   PARTIAL — what is missing for the full statement over whole runs: the congruence of an ordinary
+   instruction step with respect to [peq] (two program-equal states that differ in dead
+   supervisor-stack slots, handler-private supervisor memory, instructions_run, the observer and
+   the consumed part of scripted devices step to program-equal states, provided the instruction
+   does not read those supervisor words), and with it the induction across the boundaries of a
+   whole program.  The harness checks exactly that on the implementation (interrupted vs
+   uninterrupted runs, exhaustive placement). *)
+Theorem C10_serviced_once : forall e s v p s1 s2,
+  entry_pre s v p -> entry_post s s1 v p -> HandlerOK s s1 s2 ->
+  (exists d, entry_sp s = new_init d /\ 2 <= d <= 12288) ->
+  exists s3, exec e SRTI s2 = (s3, inl tt) /\ peq s s3 /\ s_instrs s3 = s_instrs s2.
+Proof. exact serviced_once. Qed.
+Print Assumptions C10_serviced_once.
+
+Theorem C10_transparent_partial : forall e s s', Serviced e s s' -> peq s s'.
+Proof. exact serviced_transparent. Qed.
+Print Assumptions C10_transparent_partial.
+
+(* Transparency over whole runs of user code (proofs/IrqCongruence.v: a two-run relational Hoare rule
+   for bind; every non-TRAP instruction is a congruence for "shows the program the same things").
+   [IRun n s s']: n instructions of the interrupted run from s to s' — before each instruction any
+   number of interrupts are serviced ([Svc]: the gate takes the request in a whole [step_inner],
+   the handler meets HandlerOK, its RTI executes), the instruction itself is a [step_inner] with
+   no request pending.  [URun n t t']: the same n instructions fetched and executed with nothing in
+   between.  For a user-mode, non-strict machine ([uok]) executing non-TRAP instructions
+   ([nontrap_at]): the two runs end program-equal — same PC, PSR/CC, all registers incl. the stack
+   pointer, saved SP, every word of user memory, keyboard and display.
+   PARTIAL with respect to the property: TRAP instructions (the OS routines run in supervisor mode
+   on the stack the handlers also use: the congruence there needs "the routine never reads a
+   supervisor word below its stack pointer before writing it") and strict mode are not covered;
+   the harness covers both on the implementation. *)
+Theorem C10_transparent_user_partial : forall n s s', IRun n s s' ->
+  forall t, peq s t -> uok s -> exists t', URun n t t' /\ peq s' t' /\ uok s'.
+Proof. exact user_run_transparent. Qed.
+Print Assumptions C10_transparent_user_partial.
+
+(* one instruction: program-equal user-mode states execute any non-TRAP instruction with the same
+   result and stay program-equal *)
+Theorem C10_user_step_congruence : forall e s t,
+  veq s t -> uok s -> nontrap_at s ->
+  snd (fetch_exec e t) = snd (fetch_exec e s) /\ veq (fst (fetch_exec e s)) (fst (fetch_exec e t)) /\ uok (fst (fetch_exec e s)).
+Proof. exact cong_fetch_exec. Qed.
+Print Assumptions C10_user_step_congruence.
+
+(* the hypotheses are satisfiable: a fresh machine (user mode, priority 0, saved SP x3000) with a
+   scripted device requesting vector x80 at priority 4 takes the interrupt *)
+Example C10_entry_pre_satisfiable :
+  let s := new_sim_devs (mkFlags false false false false) 0 true default_ireg [DNull; DNull; DNull; DScript [Some (IVec 128 4)]] in
+  takes_irq (mkEnv false false []) s 128 4 /\ entry_pre s 128 4 /\
+  (exists d, entry_sp s = new_init d /\ 2 <= d <= 12288).
+Proof.
+  cbv zeta. split; [|split].
+  - split; [vm_compute; reflexivity|vm_compute; reflexivity].
+  - constructor; try (vm_compute; reflexivity); try lia; vm_compute; split; congruence.
+  - exists 12288. split; [vm_compute; reflexivity|lia].
+Qed.
